@@ -15,18 +15,6 @@ Proof.
   intro H. unfold splice. rewrite !app_length, firstn_length_le by lia. rewrite skipn_length. lia.
 Qed.
 
-Lemma wf_bytes_firstn n l : wf_bytes l = true -> wf_bytes (firstn n l) = true.
-Proof.
-  revert n. induction l as [|x l IH]; intros [|n] H; simpl; auto.
-  simpl in H. apply andb_true_iff in H as [Hx Hl]. rewrite Hx. simpl. apply IH. exact Hl.
-Qed.
-
-Lemma wf_bytes_skipn n l : wf_bytes l = true -> wf_bytes (skipn n l) = true.
-Proof.
-  revert n. induction l as [|x l IH]; intros [|n] H; simpl; auto.
-  simpl in H. apply andb_true_iff in H as [Hx Hl]. apply IH. exact Hl.
-Qed.
-
 (* ------------------------------------------------------------------ the attribute walk *)
 Definition proj3 (p : tlv * nat) : N * nat * bytes := (tlv_t (fst p), snd p, tlv_v (fst p)).
 
